@@ -116,7 +116,17 @@ def install(eng, cfg=None):
                 if isinstance(a[2], P) and a[2].obj == 0 and a[2].off == 0: v = ('null',)
                 else:
                     n = E.to_signed(eng.concretize(st, n, 'bind length'), 32)
-                    if n < 0: bs = list(eng.read_cstr(st, a[2]))
+                    if n < 0:
+                        # NUL-terminated text: a symbolic byte may itself be the terminator (fork on it)
+                        bs = []; i = 0
+                        while True:
+                            b = eng.load(st, P(a[2].obj, a[2].off + i), 1)
+                            if isinstance(b, Undef): raise E.Bug('undef', 'uninitialised byte in a C string bound to an SQL parameter', eng._m(st))
+                            if b.__class__ is int:
+                                if b == 0: break
+                            elif eng.decide(st, E.bv(b, 8) == 0): break
+                            bs.append(b); i += 1
+                            if i > 4096: raise E.Inconclusive('cap', 'unterminated C string')
                     else: bs = eng.read_bytes(st, a[2], n)
                     for b in bs:
                         if isinstance(b, Undef): raise E.Bug('undef', 'uninitialised byte bound to an SQL parameter', eng._m(st))
@@ -314,9 +324,13 @@ def install(eng, cfg=None):
         size = 376
         eng.kill_overlaps(o, base, size)
         for i in range(0, size, 8): o.cells[base + i] = (8, 0)
+        o.cells[base] = (8, eng.dummy_vptr(st))        # vptr: vbase offset (vptr[-3]) reads as 0
         # the stringbuf's std::string member (offset 8 + 72): valid empty string
         so = base + 80
         o.cells[so] = (8, P(this.obj, so + 16)); o.cells[so + 8] = (8, 0); eng.kill_overlaps(o, so + 16, 1); o.cells[so + 16] = (1, 0)
+        # basic_ios::_M_fill_init = true (the virtual base is placed at offset 0 by the dummy vtable): std::setfill/fill() then never asks the
+        # (absent) ctype facet to widen a character
+        eng.kill_overlaps(o, base + 224, 2); o.cells[base + 224] = (1, 0x20); o.cells[base + 225] = (1, 1)
     M['_ZNSt7__cxx1119basic_ostringstreamIcSt11char_traitsIcESaIcEEC1Ev'] = m_oss_ctor
     M['_ZNSt7__cxx1119basic_ostringstreamIcSt11char_traitsIcESaIcEEC1ESt13_Ios_Openmode'] = m_oss_ctor
     M['_ZNSt7__cxx1118basic_stringstreamIcSt11char_traitsIcESaIcEEC1Ev'] = m_oss_ctor
